@@ -1,6 +1,7 @@
 import FV.Proofs.Producers
 import FV.Proofs.ProducersDie
 import FV.Proofs.ProducersAlloc
+import FV.Props.C01
 /-
   C19 — Every document FRAME produces is accepted back and says the same thing.
   Property theorems only (helper lemmas live in `FV/Proofs/Producers.lean`).
@@ -12,7 +13,7 @@ import FV.Proofs.ProducersAlloc
   Shape of the claims.  Per producer: `reader (producer obj).1 = .ok obj'` with `obj'` spelled out in terms of the source
   object (same regions / cells / ratios / modules / kinds / shapes / nets / weights), `(producer obj).2 = obj`
   (producing does not alter the object) and, as a corollary, producing twice gives the same tree.
-  netgen: for every topology and every size at which it is defined — chain, star: every n; ring: n ≥ 3; ring-star:
+  netgen: for every topology and every size at which it is defined — chain, star: every n; ring: accepted for every n ≥ 1, a simple cycle for n ≥ 3; ring-star:
   n ≥ 4; one-net: n ≥ 2; grid: columns ≥ 1 (also with `--add-centers`: `gen_grid_centres_*`); H-tree: levels ≥ 1, by induction on the levels with the invariant
   "every referenced index lies in [first index, next free index)" — `gen_*_accepted` (the reader returns exactly the
   netlist of the index-level specification) and `gen_*_topology` (that netlist is well formed and is the intended graph).
@@ -36,27 +37,47 @@ import FV.Proofs.ProducersAlloc
   constructor (`dieCore`, `detPicks`: grid, ground regions, self-check) returns on it exactly what it returns on the
   source.  `alloc_roundtrip_constructor` does the same with the constructor model of C02/C12 (`FV/Model/Alloc.lean`,
   `mkAllocation`: parse, bounding box, tolerances, `_check_no_overlap`, `_calculate_areas_and_centers`): the written
-  document is accepted in the same tolerance state and yields the same cells, ratio maps, depths, caches and box.
-  NOT carried by either document: the run-time marks of a rectangle (`fixed`, `hard`, STOG location) — the re-read cells
-  are the source cells with those marks reset (`stripCell`).
+  document is accepted in the same tolerance state and yields the same cells, ratio maps, depths, `fixed` marks, caches and
+  box.
+
+  WHICH TOLERANCE STATE.  The class-wide tolerances (`Rectangle._distance_epsilon/_area_epsilon`) at the time of the re-read
+  need not be those at the time of writing: `alloc_roundtrip_any_state` (re-read in ANY state — a fresh interpreter or
+  whatever an earlier design left — as soon as the cell overlaps stay within the area tolerance then in force;
+  `alloc_roundtrip_fresh` for exact tilings in a fresh interpreter) and `die_roundtrip_any_state` (die built in state `st`,
+  document re-read in state `st'`, both inside the separated band of C01/C20: SAME ground / specialised / blockage /
+  fixed lists).
+
+  THE `fixed` MARK OF A CELL (REPAIRED, fixes/C19_alloc_fixed_mark.diff).  `refine`, `must_be_refined`,
+  `uniform_refinement_depth` and `griddify` skip the cells whose rectangle is marked `fixed`.  The code as found wrote
+  `[[x, y, w, h, region], {module: ratio}, depth]` only and read every cell back unmarked: on an 8 × 6 die with the fixed
+  module `[1,1,2,2]`, `refine(1.0, 1)` returned 5 cells on the original object and 6 on the one read back
+  (findings/C19_alloc_fixed_mark.py) — `alloc_orig_loses_mark`.  The repaired writer appends `depth, fixed` to the
+  descriptor of a marked cell and the reader restores the mark; the theorems below are about the repaired code.
+  Still not carried by an allocation document: the marks `hard` and STOG location of a cell's rectangle (no operation of
+  `Allocation` reads them; `stripCell` resets exactly these two).
 
   NOT CLAIMED
-  * the run-time `fixed` mark of an allocation cell.  The allocation format `[[x, y, w, h, region], {module: ratio},
-    depth]` has no field for it (`Allocation._parse_yaml_tree` calls `parse_yaml_rectangle(r)` with `fixed=False`; the
-    mark is re-derived from a netlist by `Allocation.initial_allocation` / `_detect_fixed_rectangles`), so an allocation
-    read back has every cell unmarked and operations that consult the mark can differ — witness: 4×4 die with the fixed
-    cell `[3,1,2,2] {B: 1.0}`: `refine(1.0, 1)` returns 5 cells on the original object and 6 on the re-read one.  The
-    property lists "regions, cells and ratios"; `alloc_roundtrip_constructor` therefore states the re-read cells with the
-    marks reset (`stripCell`), and the harness compares cells without the mark and counts the cases where it is lost.
   * the text form of a netgen / FloorSet / die / allocation document beyond what `ruamel` round-trips (see OUTSIDE).
 
+  ALSO IN THIS FILE (added when the coverage was extended): the command line of netgen (`netgen_main_accepted`,
+  `netgen_main_grid_accepted`, `netgen_main_rejects`), what generator and reader do below the size guards
+  (`gen_one_net_small_rejected`, `gen_ring_star_small_rejected`; `gen_ring_accepted` needs no guard at all), the FloorSet
+  converter from the RAW arrays — the constructor's asserts, kinds from the placement constraints, the weight
+  normalisation `alpha` (`floorset_raw_accepted`, `floorset_raw_rejects`) — every terminal rectangle inside the die
+  (`floorset_terminals_in_die`), `get_netlist` composed with a valid allocation with no side condition left
+  (`rectio_accepted_of_valid_allocation`, via `valid_identifier_one_function`).
+
   OUTSIDE these theorems (exercised on every sample by harness/props/c19.py, not proved):
-  * the text layer (ruamel dump / safe load, `str(float)` inside the string-built netlists);
+  * the text layer (ruamel dump / safe load, `str(float)` inside the string-built netlists; `argparse` and the `WxH`
+    die shorthand of `netgen.main`);
   * for a die written AFTER a refinement, that the
     ground regions the constructor re-derives cover the same region as the refined ones (compared exactly by the harness;
     `die_roundtrip_constructor` says the constructor sees the same size / blockages / specialised regions);
-  * the polygon decomposition of FloorSet blocks (`strop_decomposition`, property C15) and the density factor `alpha`
-    are inputs of `FsInst`; hard blocks need `noOverlap εA` of their decomposition as a hypothesis;
+  * the polygon decomposition of FloorSet blocks (`strop_decomposition`, property C15) is an input of `FsInst` / `FsRaw`;
+    hard blocks need `noOverlap εA` of their decomposition as a hypothesis; `sqrt` in the perimeter is a parameter;
+    numpy's pairwise summation in `weight_sum` is a left fold in the model; the type checks of
+    `FloorSetInstance.__init__` (dict / ndarray / float) and FloorSet-Lite rows (which the code cannot convert) are not
+    modelled;
   * for ring-star only pin-level well-formedness is proved, not the absence of parallel nets.
 -/
 namespace FV.C19
@@ -171,10 +192,13 @@ theorem gen_chain_topology (a : α) (n : Nat) :
   · intro i hi
     simp [chainPairs, hi]
 
-/-! #### ring (a simple cycle needs `n ≥ 3`) -/
+/-! #### ring (accepted for every `n`; a simple cycle needs `n ≥ 3`) -/
 
+/-- the reader accepts the ring of EVERY size (no guard is needed: for `n = 0` no `% n` is evaluated and the netlist is
+    empty) and loads the nets `{M_i, M_((i+1) mod n)}`; for `n = 1` that is the self-loop `[M0, M0]`, for `n = 2` two
+    parallel nets — what "ring" means below 3 is `gen_ring_topology`'s hypothesis, not the reader's. -/
 theorem gen_ring_accepted (stog : List (NRect α) → List (NRect α)) (εA : α) (area : Num α)
-    (ha : (0 : α) < area.val) (n : Nat) (hn : 3 ≤ n) :
+    (ha : (0 : α) < area.val) (n : Nat) :
     parseNetlist stog εA (genRing area n).toY = .ok (pairNetlist area.val n (ringPairs n)) := by
   have := pairs_accepted stog εA area ha n (ringPairs n) (by
     intro p hp
@@ -549,6 +573,194 @@ theorem gen_htree_topology (a : α) (k : Nat) : WellFormed (htreeNetlist a k) :=
       · exact List.mem_map.mpr ⟨x.2.1, List.mem_range.mpr (by omega), rfl⟩
 
 
+/-! #### below the guards: what the generator and the reader do at sizes where the topology is not defined
+
+  No claim about a design is made there; these theorems (and the harness, which compares model and code at every size
+  from −3 up) pin down that the MODEL does what the code does on those sizes too: rejections are rejections. -/
+
+lemma parseDoc_edges_error (mods nets : YVal α) (ms : List (NL.Mod α)) (e : NL.Err)
+    (hm : parseModules mods = .ok ms) (he : parseEdges nets = .error e) :
+    parseDoc (.map [(.str "Modules", mods), (.str "Nets", nets)]) = .error e := by
+  simp [parseDoc, mapE, classifyRoot, YVal.str?, rootKind, nodupB, assoc, optParse, hm, he]
+
+lemma parseModules_chain (area : Num α) (ha : (0 : α) < area.val) (n : Nat) :
+    parseModules (Dict.toY (genModules area n 0)) = .ok ((List.range n).map fun i => softMod area.val (modName i)) := by
+  rw [genModules_chain]
+  have hmods : mapE (parseModule (α := α)) ((List.range n).map fun i => (YVal.str (modName i), modInfo area))
+      = .ok ((List.range n).map fun i => softMod area.val (modName i)) :=
+    mapE_map_ok _ _ _ _ (fun i _ => parseModule_soft (modName i) area (validIdent_modName i) ha)
+  have hnames : ((List.range n).map fun i => softMod area.val (modName i)).map (·.name) = (List.range n).map modName := by
+    simp [softMod, Function.comp_def]
+  have := parseModules_of _ _ hmods (by rw [hnames]; exact modName_nodup _ List.nodup_range)
+  simpa [Dict.toY, Function.comp_def] using this
+
+/-- one-net below 2 modules: the single net has fewer than two pins and the reader REJECTS the document
+    (`AssertionError: Incorrect specification of edge`). -/
+theorem gen_one_net_small_rejected (stog : List (NRect α) → List (NRect α)) (εA : α) (area : Num α)
+    (ha : (0 : α) < area.val) (n : Nat) (hn : n < 2) :
+    parseNetlist stog εA (genOneNet area n).toY = .error .edge := by
+  have he : parseEdges (α := α) (.seq [GEdge.toY { members := (List.range n).map modName }]) = .error .edge := by
+    have hl : n ≤ 1 := by omega
+    simp [parseEdges, mapE, GEdge.toY, parseEdge, hl]
+  have := parseDoc_edges_error (α := α) _ _ _ _ (parseModules_chain area ha n) he
+  simp only [parseNetlist, genOneNet, GenOut.toY, List.map_cons, List.map_nil, this]
+
+/-- ring-star below 2 modules: the closing net of the ring names a module that was never declared (`M-1` for `n = 0`,
+    `M1` for `n = 1`) and the reader REJECTS the document (`AssertionError: Unknown module … in edge`). -/
+theorem gen_ring_star_small_rejected (stog : List (NRect α) → List (NRect α)) (εA : α) (area : Num α)
+    (ha : (0 : α) < area.val) (n : Nat) (hn : n < 2) :
+    parseNetlist stog εA (genRingStar area n).toY = .error .unknownModule := by
+  have hm := parseModules_chain area ha n
+  have hnets : (genRingStar area n).nets = [pair (modNamePred n) (modName 1)] := by
+    have h01 : n = 0 ∨ n = 1 := by omega
+    rcases h01 with rfl | rfl <;> simp [genRingStar, List.range']
+  have he : parseEdges (α := α) (.seq ((genRingStar area n).nets.map GEdge.toY))
+      = .ok [{ members := [modNamePred n, modName 1], weight := 1 }] := by
+    rw [hnets]
+    simp [parseEdges, mapE, GEdge.toY, pair, parseEdge, splitLast, strs, YVal.num?, YVal.str?, NL.one]
+  have hdoc := parseDoc_two (α := α) _ _ _ _ hm he
+  have hnm : modName 1 ∉ (List.range n).map modName := by
+    intro h
+    obtain ⟨i, hi, hie⟩ := List.mem_map.mp h
+    have := modName_inj hie
+    have := List.mem_range.mp hi
+    omega
+  have hprep : mapE (prepModule (α := α)) ((List.range n).map fun i => softMod area.val (modName i))
+      = .ok ((List.range n).map fun i => softMod area.val (modName i)) :=
+    mapE_ok_self _ _ (by intro m hm; obtain ⟨i, _, rfl⟩ := List.mem_map.mp hm; simp [prepModule, softMod])
+  simp only [parseNetlist, genRingStar, GenOut.toY] at hdoc ⊢
+  simp only [genRingStar] at hnets
+  rw [hdoc]
+  simp only [finish, hprep]
+  have hall : ((List.range n).map fun i => softMod area.val (modName i)).all
+      (fun m => !(m.hard && !m.terminal) || noOverlap εA m.rects) = true := by
+    simp [List.all_eq_true, softMod]
+  have hfl : (((List.range n).map fun i => softMod area.val (modName i)).map
+      fun m => if m.rects.isEmpty then m else { m with rects := stog m.rects }).all (fun m => !m.flip || hasStog m) = true := by
+    simp [List.all_eq_true, softMod]
+  simp only [hall, hfl, Bool.not_true, Bool.false_eq_true, if_false]
+  have hnames : ((((List.range n).map fun i => softMod area.val (modName i)).map
+      fun m => if m.rects.isEmpty then m else { m with rects := stog m.rects }).map (·.name)) = (List.range n).map modName := by
+    simp [softMod, Function.comp_def]
+  rw [hnames]
+  have : ([modNamePred n, modName 1].all fun x => ((List.range n).map modName).contains x) = false := by
+    simp only [List.all_cons, List.all_nil, Bool.and_true, Bool.and_eq_false_iff, List.contains_iff_mem]
+    right
+    simpa using hnm
+  have hc2 : ∀ x < n, ¬ modName x = modName 1 := by
+    intro x hx e
+    have := modName_inj e
+    omega
+  simp [mapE, resolveNet]
+  rw [if_pos (Or.inr hc2)]
+
+/-! #### the command line `netgen.main` (option checks, die, dispatch) -/
+
+lemma one_area_pos : (0 : α) < (Num.i 1 : Num α).val := by simp [Num.val, intToSc]
+
+/-- `netgen --type T --size n` (no `--add-centers`) for a one-size topology at a size where it is defined: `main` writes the
+    document of the builder and the reader accepts it with the intended topology. -/
+theorem netgen_main_accepted (stog : List (NRect α) → List (NRect α)) (εA : α) (o : NgOpts α) (n : Nat)
+    (hs : o.size = [(n : Int)]) (hc : o.addCenters = false) :
+    (o.type = "chain" → ∃ g, netgenMain o = .ok g ∧ parseNetlist stog εA g.toY = .ok (pairNetlist 1 n (chainPairs n))) ∧
+    (o.type = "ring" → ∃ g, netgenMain o = .ok g ∧ parseNetlist stog εA g.toY = .ok (pairNetlist 1 n (ringPairs n))) ∧
+    (o.type = "star" → ∃ g, netgenMain o = .ok g ∧ parseNetlist stog εA g.toY = .ok (pairNetlist 1 n (starPairs n))) ∧
+    (o.type = "ring-star" → 4 ≤ n →
+      ∃ g, netgenMain o = .ok g ∧ parseNetlist stog εA g.toY = .ok (pairNetlist 1 n (ringStarPairs n))) ∧
+    (o.type = "one-net" → 2 ≤ n → ∃ g, netgenMain o = .ok g ∧ parseNetlist stog εA g.toY = .ok (oneNetNetlist 1 n)) ∧
+    (o.type = "htree" → 1 ≤ n → ∃ g, netgenMain o = .ok g ∧ parseNetlist stog εA g.toY = .ok (htreeNetlist 1 (n - 1))) := by
+  have hv : (Num.i 1 : Num α).val = 1 := by simp [Num.val, intToSc]
+  have hp := one_area_pos (α := α)
+  have hn0 : ((n : Int)).toNat = n := by simp
+  refine ⟨?_, ?_, ?_, ?_, ?_, ?_⟩
+  · intro ht
+    refine ⟨genChain (.i 1) n, by simp [netgenMain, ht, hs, hc, hn0], ?_⟩
+    rw [gen_chain_accepted stog εA _ hp n, hv]
+  · intro ht
+    refine ⟨genRing (.i 1) n, by simp [netgenMain, ht, hs, hc, hn0], ?_⟩
+    rw [gen_ring_accepted stog εA _ hp n, hv]
+  · intro ht
+    refine ⟨genStar (.i 1) n, by simp [netgenMain, ht, hs, hc, hn0], ?_⟩
+    rw [gen_star_accepted stog εA _ hp n, hv]
+  · intro ht h4
+    refine ⟨genRingStar (.i 1) n, by simp [netgenMain, ht, hs, hc, genRingStarI, hn0], ?_⟩
+    rw [gen_ring_star_accepted stog εA _ hp n h4, hv]
+  · intro ht h2
+    refine ⟨genOneNet (.i 1) n, by simp [netgenMain, ht, hs, hc, hn0], ?_⟩
+    rw [gen_one_net_accepted stog εA _ hp n h2, hv]
+  · intro ht h1
+    obtain ⟨g, hg, hpg⟩ := gen_htree_accepted stog εA (Num.i 1 : Num α) hp n h1
+    have hnp : ¬ ((n : Int) ≤ 0) := by omega
+    have hn1 : ¬ n = 0 := by omega
+    refine ⟨g, by simp [netgenMain, ht, hs, hc, genHtreeI, hnp, hn0, hg, hn1], ?_⟩
+    rw [hpg, hv]
+
+/-- `netgen --type grid --size r c [--add-centers --die WxH [--add-noise sd]]` for `r, c ≥ 1`: accepted, with the plain
+    grid, resp. the grid whose modules carry their cell centres (plus the draws). -/
+theorem netgen_main_grid_accepted (stog : List (NRect α) → List (NRect α)) (εA : α) (o : NgOpts α) (r c : Nat)
+    (ht : o.type = "grid") (hs : o.size = [(r : Int), (c : Int)]) (hc1 : 1 ≤ c) :
+    (o.addCenters = false →
+      ∃ g, netgenMain o = .ok g ∧ parseNetlist stog εA g.toY = .ok (gridNetlist 1 r c)) ∧
+    (o.addCenters = true → 1 ≤ r → ∀ W H, o.die = some (W, H) → 0 ≤ o.sd →
+      ∃ g, netgenMain o = .ok g ∧ parseNetlist stog εA g.toY
+        = .ok { modules := (gridIdx r c).map fun rc => softModC (modName2 rc.1 rc.2) (gridCentre r c W H o.noise rc) 1,
+                nets := (gridNetlist 1 r c).nets }) := by
+  have hv : (Num.i 1 : Num α).val = 1 := by simp [Num.val, intToSc]
+  have hp := one_area_pos (α := α)
+  constructor
+  · intro hc
+    refine ⟨genGrid (.i 1) r c, by simp [netgenMain, ht, hs, hc], ?_⟩
+    rw [gen_grid_accepted stog εA _ hp r c hc1, hv]
+  · intro hc hr1 W H hd hsd
+    have hc0 : ¬ ((c : Int) ≤ 0) := by omega
+    have hr0 : ¬ ((r : Int) = 0) := by omega
+    have hsd' : ¬ (o.sd < 0) := not_lt.mpr hsd
+    have hc0' : ¬ c = 0 := by omega
+    have hr0' : ¬ r = 0 := by omega
+    refine ⟨genGridCentred (.i 1) r c W H o.noise,
+      by simp [netgenMain, ht, hs, hc, hd, hsd', genGridCentredI, hc0, hr0, hc0', hr0'], ?_⟩
+    rw [gen_grid_centres_accepted stog εA _ hp r c hc1 W H o.noise, hv]
+
+/-- what `main` refuses: a wrong number of sizes, `--add-centers` for another type than grid or without a die, a negative
+    standard deviation (`AssertionError`), and — past the option checks — a grid with centres and NO rows
+    (`ZeroDivisionError` in `die_shape.h / rows`) or an H-tree without levels (`AssertionError`). -/
+theorem netgen_main_rejects (o : NgOpts α) :
+    ((o.type = "grid" ∧ o.size.length ≠ 2) ∨ (o.type ≠ "grid" ∧ o.size.length ≠ 1) → netgenMain o = .error .assertion) ∧
+    (o.addCenters = true → o.type ≠ "grid" → netgenMain o = .error .assertion) ∧
+    (o.addCenters = true → o.die = none → netgenMain o = .error .assertion) ∧
+    (o.addCenters = true → o.sd < 0 → netgenMain o = .error .assertion) ∧
+    (∀ c W H, o.type = "grid" → o.size = [0, c] → 0 < c → o.addCenters = true → o.die = some (W, H) → 0 ≤ o.sd →
+      netgenMain o = .error .zeroDiv) ∧
+    (∀ n, o.type = "htree" → o.size = [n] → n ≤ 0 → o.addCenters = false → netgenMain o = .error .assertion) := by
+  refine ⟨?_, ?_, ?_, ?_, ?_, ?_⟩
+  · intro h; simp [netgenMain, h]
+  · intro h1 h2
+    unfold netgenMain
+    split
+    · rfl
+    · rw [if_pos ⟨by simp [h1], h2⟩]
+  · intro h1 h2
+    unfold netgenMain
+    split
+    · rfl
+    · split
+      · rfl
+      · rw [if_pos ⟨by simp [h1], by simp [h2]⟩]
+  · intro h1 h2
+    unfold netgenMain
+    split
+    · rfl
+    · split
+      · rfl
+      · split
+        · rfl
+        · rw [if_pos ⟨by simp [h1], by simpa using h2⟩]
+  · intro c W H ht hs hc hac hd hsd
+    have hc0 : ¬ (c ≤ 0) := by omega
+    simp [netgenMain, ht, hs, hac, hd, hsd, genGridCentredI, hc0]
+  · intro n ht hs hn hac
+    simp [netgenMain, ht, hs, hac, genHtreeI, hn]
+
 /-! ### die and allocation writers: the reader sees exactly the object that was written -/
 
 /-- `parse_yaml_die ∘ Die.write_yaml`: width, height, blockages and specialised regions (with their tags, in order)
@@ -565,12 +777,51 @@ theorem alloc_roundtrip (cs : List (Cell α)) (h : ∀ c ∈ cs, c.WF) :
     readAlloc (writeAlloc cs).1 = .ok cs :=
   readAlloc_writeAlloc cs h
 
-/-- a written allocation document has a third cell entry exactly for the refined cells. -/
+/-- the three forms of a written cell (REPAIRED writer): `[rect, alloc]` for an unrefined unmarked cell,
+    `[rect, alloc, depth]` for a refined unmarked cell, `[rect, alloc, depth, fixed]` exactly for the marked cells. -/
 theorem alloc_depth_omitted (c : Cell α) :
-    (∃ r a, c.toY = .seq [r, a] ∧ c.depth = 0) ∨ (∃ r a, c.toY = .seq [r, a, .int c.depth] ∧ 0 < c.depth) := by
-  by_cases h : c.depth > 0
-  · exact Or.inr ⟨c.rect.toY, .map (c.alloc.map fun kv => (.str kv.1, YVal.ofNum kv.2)), by simp [Cell.toY, h], h⟩
-  · exact Or.inl ⟨c.rect.toY, .map (c.alloc.map fun kv => (.str kv.1, YVal.ofNum kv.2)), by simp [Cell.toY, h], by omega⟩
+    (∃ r a, c.toY = .seq [r, a] ∧ c.depth = 0 ∧ c.fixed = false) ∨
+    (∃ r a, c.toY = .seq [r, a, .int c.depth] ∧ 0 < c.depth ∧ c.fixed = false) ∨
+    (∃ r a, c.toY = .seq [r, a, .int c.depth, .str kwFixed] ∧ c.fixed = true) := by
+  cases hf : c.fixed with
+  | true =>
+    exact Or.inr (Or.inr ⟨c.rect.toY, .map (c.alloc.map fun kv => (.str kv.1, YVal.ofNum kv.2)), by simp [Cell.toY, hf], rfl⟩)
+  | false =>
+    by_cases h : c.depth > 0
+    · exact Or.inr (Or.inl ⟨c.rect.toY, .map (c.alloc.map fun kv => (.str kv.1, YVal.ofNum kv.2)),
+        by simp [Cell.toY, h, hf], h, rfl⟩)
+    · exact Or.inl ⟨c.rect.toY, .map (c.alloc.map fun kv => (.str kv.1, YVal.ofNum kv.2)), by simp [Cell.toY, h, hf],
+        by omega, rfl⟩
+
+/-- the code AS FOUND (`writeAllocOrig` / `readAllocOrig`: no fourth entry): a marked cell comes back unmarked — the
+    document does not describe the object that was written.  (Kept to document the defect that
+    fixes/C19_alloc_fixed_mark.diff repairs.) -/
+theorem alloc_orig_loses_mark (c : Cell α) (h : c.WF) (hf : c.fixed = true) :
+    readAllocOrig (writeAllocOrig [c]).1 = .ok [{ c with fixed := false }] ∧
+    readAllocOrig (writeAllocOrig [c]).1 ≠ .ok [c] := by
+  have h' : ({ c with fixed := false } : Cell α).WF := h
+  have key : parseCellOrig c.toYOrig = .ok { c with fixed := false } := by
+    have e : c.toYOrig = ({ c with fixed := false } : Cell α).toY := by simp [Cell.toYOrig, Cell.toY]
+    have p := parseCell_toY _ h'
+    rw [e]
+    by_cases hd : c.depth > 0
+    · have e2 : ({ c with fixed := false } : Cell α).toY
+          = .seq [c.rect.toY, .map (c.alloc.map fun kv => (.str kv.1, YVal.ofNum kv.2)), .int c.depth] := by
+        simp [Cell.toY, hd]
+      rw [e2] at p ⊢
+      simpa [parseCellOrig] using p
+    · have e2 : ({ c with fixed := false } : Cell α).toY
+          = .seq [c.rect.toY, .map (c.alloc.map fun kv => (.str kv.1, YVal.ofNum kv.2))] := by
+        simp [Cell.toY, hd]
+      rw [e2] at p ⊢
+      simpa [parseCellOrig] using p
+  have r : readAllocOrig (writeAllocOrig [c]).1 = .ok [{ c with fixed := false }] := by
+    simp [readAllocOrig, writeAllocOrig, amapE, key]
+  refine ⟨r, ?_⟩
+  rw [r]
+  intro hc
+  have := congrArg (fun x => match x with | Except.ok [d] => d.fixed | _ => true) hc
+  simp [hf] at this
 
 /-! ### producing never alters the object; producing twice gives identical documents -/
 
@@ -649,23 +900,105 @@ theorem namededges_orig_alters (e : NEdge α) (h : weightIsOne e.weight = false)
 
 /-- the allocation writer composed with the allocation CONSTRUCTOR model of C02/C12.  For a valid allocation object
     (`ValidAlloc`: what `mkAllocation` accepted, tolerances defined) whose cells are tagged with identifier regions, the
-    document `Allocation.write_yaml` produces translates (`rawOfTree`) to descriptors on which the full constructor —
-    parser, bounding box, `_check_no_overlap`, `_calculate_areas_and_centers` — SUCCEEDS in the same tolerance state and
-    leaves it unchanged; the object it builds has the same cells, ratio maps and depths (the rectangles with their
-    run-time marks `fixed` / `hard` / location reset: not part of the document), literally the same caches, hence the
-    same `area(m)` and `center(m)` for every name, and the same bounding box. -/
+    document `Allocation.write_yaml` produces translates (`rawOfTree`) to descriptors on which the full (REPAIRED)
+    constructor `mkAllocationDoc` — parser restoring the `fixed` marks, bounding box, `_check_no_overlap`,
+    `_calculate_areas_and_centers` — SUCCEEDS in the same tolerance state and leaves it unchanged; the object it builds has
+    the same cells, ratio maps, depths and `fixed` marks (only `hard` / STOG location, which no allocation operation
+    reads, are reset: `stripCell`), literally the same caches, hence the same `area(m)` and `center(m)` for every name,
+    and the same bounding box. -/
 theorem alloc_roundtrip_constructor (env : Alloc.Env α) (st : Alloc.Eps α) (a : Alloc.Allocation α)
     (hv : Alloc.ValidAlloc st a) (hr : ∀ c ∈ a.cells, Alloc.validIdent c.rect.region = true) :
     ∃ raw a', rawOfTree (writeAlloc (a.cells.map ofACell)).1 = some raw ∧
-      Alloc.mkAllocation env st raw = .ok (a', st) ∧
+      mkAllocationDoc env st raw = .ok (a', st) ∧ a' = stripAlloc a ∧
       a'.cells = a.cells.map stripCell ∧
-      a'.cells.map (fun c => (c.rect.cx, c.rect.cy, c.rect.w, c.rect.h, c.rect.region, c.alloc, c.depth))
-        = a.cells.map (fun c => (c.rect.cx, c.rect.cy, c.rect.w, c.rect.h, c.rect.region, c.alloc, c.depth)) ∧
+      a'.cells.map (fun c => (c.rect.cx, c.rect.cy, c.rect.w, c.rect.h, c.rect.region, c.rect.fixed, c.alloc, c.depth))
+        = a.cells.map (fun c => (c.rect.cx, c.rect.cy, c.rect.w, c.rect.h, c.rect.region, c.rect.fixed, c.alloc, c.depth)) ∧
       a'.stats = a.stats ∧ a'.bbox = a.bbox ∧
       ∀ m, a'.areaOf m = a.areaOf m ∧ a'.centerOf m = a.centerOf m := by
   obtain ⟨h1, h2⟩ := alloc_written_constructor env st a hv hr
-  refine ⟨_, _, h1, h2, rfl, ?_, rfl, rfl, fun m => ⟨rfl, rfl⟩⟩
+  refine ⟨_, _, h1, h2, rfl, rfl, ?_, rfl, rfl, fun m => ⟨rfl, rfl⟩⟩
   simp [List.map_map, Function.comp_def, stripCell]
+
+/-- … written in tolerance state `st`, re-read in ANY state `st'` (undefined = a fresh interpreter, or left by an earlier
+    design of another scale).  The re-read works with `effEps env st' a.bbox` (the state in force, or
+    `1e-12·min(bb.w, bb.h)` and its `sqrt` derived from the allocation's own box).  Whenever the pairwise overlaps of the
+    cells are within that area tolerance — the only way the tolerance enters the constructor — the document is accepted
+    and yields the same cells, ratio maps, depths, marks, caches and box as the source object; the state left is `effEps`.
+    No upper bound on the tolerance is needed and nothing that is returned depends on it. -/
+theorem alloc_roundtrip_any_state (env : Alloc.Env α) (st st' : Alloc.Eps α) (a : Alloc.Allocation α)
+    (hv : Alloc.ValidAlloc st a) (hr : ∀ c ∈ a.cells, Alloc.validIdent c.rect.region = true)
+    (ha : 0 ≤ (effEps env st' a.bbox).area)
+    (hno : a.cells.Pairwise (fun c d => c.rect.areaOverlap d.rect ≤ (effEps env st' a.bbox).area)) :
+    ∃ raw a', rawOfTree (writeAlloc (a.cells.map ofACell)).1 = some raw ∧
+      mkAllocationDoc env st' raw = .ok (a', effEps env st' a.bbox) ∧
+      a'.cells = a.cells.map stripCell ∧ a'.stats = a.stats ∧ a'.bbox = a.bbox ∧
+      ∀ m, a'.areaOf m = a.areaOf m ∧ a'.centerOf m = a.centerOf m :=
+  ⟨_, _, rawOfTree_written a.cells, alloc_written_constructor_anystate env st st' a hv hr ha hno, rfl, rfl, rfl,
+    fun m => ⟨rfl, rfl⟩⟩
+
+/-- … in particular an allocation whose cells do not overlap at all (every allocation derived from a die tiling by
+    `create_initial_allocation`, `refine`, `uniform_refinement_depth`, `griddify`, in exact arithmetic) is accepted back in
+    a FRESH interpreter (`st'` undefined) — and in every state whose area tolerance is non-negative — whatever state it
+    was written in. -/
+theorem alloc_roundtrip_fresh (env : Alloc.Env α) (st st' : Alloc.Eps α) (a : Alloc.Allocation α)
+    (hv : Alloc.ValidAlloc st a) (hr : ∀ c ∈ a.cells, Alloc.validIdent c.rect.region = true)
+    (h0 : a.cells.Pairwise (fun c d => c.rect.areaOverlap d.rect = 0))
+    (ha : 0 ≤ (effEps env st' a.bbox).area) :
+    ∃ raw a', rawOfTree (writeAlloc (a.cells.map ofACell)).1 = some raw ∧
+      mkAllocationDoc env st' raw = .ok (a', effEps env st' a.bbox) ∧
+      a'.cells = a.cells.map stripCell ∧ a'.stats = a.stats ∧ a'.bbox = a.bbox :=
+  let ⟨raw, a', h1, h2, h3, h4, h5, _⟩ := alloc_roundtrip_any_state env st st' a hv hr ha
+    (h0.imp (fun h => by rw [h]; exact ha))
+  ⟨raw, a', h1, h2, h3, h4, h5⟩
+
+/-- **the object read back answers like the object that was written**: `stripAlloc a` is what
+    `Allocation(a.write_yaml())` returns (`alloc_roundtrip_constructor`); `must_be_refined` gives the same verdict on it
+    and `refine` returns — for every threshold and number of levels — the allocation it returns on `a`, read back: same
+    cells (so the same NUMBER of cells: the fixed cell of the witness is not cut), ratios, depths, marks, caches, box, same
+    exception otherwise.  On the code as found this is false (`alloc_orig_loses_mark`). -/
+theorem reread_answers_alike (env : Alloc.Env α) (st : Alloc.Eps α) (a : Alloc.Allocation α) (hv : Alloc.ValidAlloc st a)
+    (t : α) (levels : Nat) :
+    Alloc.mustBeRefined (stripAlloc a) t = Alloc.mustBeRefined a t ∧
+    Alloc.refine env st (stripAlloc a) t levels
+      = (Alloc.refine env st a t levels).map (fun p => (stripAlloc p.1, p.2)) := by
+  refine ⟨mustBeRefined_strip a t, refine_strip env st a t levels ?_⟩
+  intro q hq c hc
+  obtain ⟨q', hq', hr⟩ := Alloc.refineCells_refines t levels a.cells
+    (fun c hc => ⟨(hv.cells.good c hc).1, (hv.cells.good c hc).2.1⟩)
+  rw [hq] at hq'
+  cases hq'
+  obtain ⟨c0, hc0, hal, _⟩ := hr.mem c hc
+  rw [hal]
+  exact hv.cells.allocs c0 hc0
+
+/-- the die writer composed with the die constructor ACROSS tolerance states: a die built from the document `doc` in
+    the tolerance state `st` and its written document re-read in the state `st'` — both distance tolerances inside the
+    band `[0, εmax]` in which the description is valid (`ValidDie εmax`: proper regions inside the die, no common area,
+    boundary coordinates further apart than `εmax`) — give the SAME object: same ground regions (in the same order), same
+    specialised regions, blockages and fixed rectangles, an exact tiling of the die. -/
+theorem die_roundtrip_any_state (sqrt : α → α) (st st' : Option (α × α)) (doc : Die.YV α) (fixed : List (Rect α))
+    (inp : Die.DieIn α) (hp : Die.parseDie doc = .ok inp) (hr : ∀ r ∈ inp.regions, RegionOk r)
+    (εmax : α) (hv : FV.C01.ValidDie εmax inp fixed)
+    (h0 : 0 ≤ (Die.mkEps sqrt st inp.W inp.H).1.d) (hle : (Die.mkEps sqrt st inp.W inp.H).1.d ≤ εmax)
+    (ha : 0 ≤ (Die.mkEps sqrt st inp.W inp.H).1.a)
+    (h0' : 0 ≤ (Die.mkEps sqrt st' inp.W inp.H).1.d) (hle' : (Die.mkEps sqrt st' inp.W inp.H).1.d ≤ εmax)
+    (ha' : 0 ≤ (Die.mkEps sqrt st' inp.W inp.H).1.a) :
+    ∃ out, Die.dieModel sqrt st doc fixed none =
+        .ok (out, (Die.mkEps sqrt st inp.W inp.H).1, (Die.mkEps sqrt st inp.W inp.H).2) ∧
+      Die.dieModel sqrt st' (toYV (writeDie (dieObjOfIn inp)).1) fixed none =
+        .ok (out, (Die.mkEps sqrt st' inp.W inp.H).1, (Die.mkEps sqrt st' inp.W inp.H).2) ∧
+      FV.C01.ExactTiling out := by
+  obtain ⟨kv, _, _, _, hW, hH, _⟩ := FV.C01.parseDie_ok doc inp hp
+  obtain ⟨out, r1, r2, ht⟩ := FV.C01.die_output_insensitive_det sqrt st st' doc fixed inp hp εmax hv h0 hle ha h0' hle' ha'
+  refine ⟨out, r1, ?_, ht⟩
+  have hw := die_parse_written inp hW hH hr
+  unfold Die.dieModel at r2 ⊢
+  simp only [hp] at r2
+  simp only [hw]
+  have e1 : (rereadIn inp).W = inp.W := rfl
+  have e2 : (rereadIn inp).H = inp.H := rfl
+  simp only [e1, e2, (die_ctor_reread _ inp fixed _).1, (die_ctor_reread _ inp fixed []).2]
+  exact r2
 
 /-- `rect_io.get_netlist` is tied to the allocation it was run on: for a valid allocation, the dictionary the emitter
     accumulates (`rioMap`, whose entries `rectio_accepted` shows to be the modules of the emitted netlist) holds for a
@@ -677,6 +1010,25 @@ theorem rectio_same_modules_as_allocation (st : Alloc.Eps α) (a : Alloc.Allocat
     | none => m ∉ Alloc.modules a.cells ∧ a.areaOf m = none
     | some (c, ar) => m ∈ Alloc.modules a.cells ∧ a.areaOf m = some ar ∧ a.centerOf m = some c :=
   rectio_denotes_allocation st a hv m
+
+/-- the three transcriptions of `valid_identifier` in the models (netlist / producers, allocation constructor, die
+    constructor) are one function, so identifier hypotheses travel between the theorems of C19, C02 and C01. -/
+theorem valid_identifier_one_function (s : String) :
+    Alloc.validIdent s = FV.validIdent s ∧ Die.validIdentifier s = FV.validIdent s :=
+  ⟨alloc_validIdent_eq s, die_validIdentifier_eq s⟩
+
+/-- **`rect_io.get_netlist(None, allocation)` composed with the allocation it is run on** (`rectio_accepted` +
+    `rectio_same_modules_as_allocation`, no side condition left): for every VALID allocation the emitted netlist is
+    accepted by the reader, holds exactly one soft module per module of the allocation (in order of first appearance), and
+    the area and centre of each are the allocation's `area(m)` and `center(m)`. -/
+theorem rectio_accepted_of_valid_allocation (stog : List (NRect α) → List (NRect α)) (εA : α) (st : Alloc.Eps α)
+    (a : Alloc.Allocation α) (hv : Alloc.ValidAlloc st a) :
+    parseNetlist stog εA (rioTree (a.cells.map ofACell))
+      = .ok { modules := (rioMap (a.cells.map ofACell)).map fun e => softModC e.1 e.2.1 e.2.2, nets := [] } ∧
+    (∀ e ∈ rioMap (a.cells.map ofACell),
+      e.1 ∈ Alloc.modules a.cells ∧ a.areaOf e.1 = some e.2.2 ∧ a.centerOf e.1 = some e.2.1) ∧
+    (∀ m ∈ Alloc.modules a.cells, ∃ e ∈ rioMap (a.cells.map ofACell), e.1 = m) :=
+  rectio_accepted_of_allocation stog εA st a hv
 
 /-! ### FloorSet converter -/
 
@@ -720,6 +1072,75 @@ theorem floorset_terminal_in_die (eps shape p : α) (he : 0 < eps) (hs : 5 / 2 *
       have h2' := not_lt.mp h2
       refine ⟨by linarith, by linarith, ?_⟩
       rw [abs_le]; constructor <;> linarith
+
+/-- … for the instance as a whole: with `--store-terminals`, EVERY terminal module the reader loads from the converter's
+    document is one `eps × eps` rectangle that lies inside the die the converter derives from the pins (`fsShape`), within
+    `eps` of its pin — for every well-formed instance whose die is at least `2.5·eps` wide and high.  (The netlist reader
+    does not know the die, so `floorset_accepted` alone does not give this.) -/
+theorem floorset_terminals_in_die (eps εA : α) (f : FsInst α) (h : FsInst.WF eps εA f) (sx sy : α)
+    (hs : fsShape f = .ok (sx, sy)) (hx : 5 / 2 * eps ≤ sx) (hy : 5 / 2 * eps ≤ sy) :
+    ∀ jp ∈ enum f.pins, ∃ r, (fsPinMod eps sx sy true jp.1 jp.2).rects = [r] ∧ r.w.val = eps ∧ r.h.val = eps ∧
+      0 ≤ r.cx.val - eps / 2 ∧ r.cx.val + eps / 2 ≤ sx ∧ 0 ≤ r.cy.val - eps / 2 ∧ r.cy.val + eps / 2 ≤ sy ∧
+      |r.cx.val - jp.2.1| ≤ eps ∧ |r.cy.val - jp.2.2| ≤ eps := by
+  intro jp hjp
+  have hp := (mem_enum hjp).2
+  obtain ⟨hp1, hp2⟩ := h.pins jp.2 hp
+  obtain ⟨hb1, hb2⟩ := fsShape_bounds f sx sy hs jp.2 hp
+  obtain ⟨a1, a2, a3⟩ := floorset_terminal_in_die eps sx jp.2.1 h.eps_pos hx hp1 hb1
+  obtain ⟨b1, b2, b3⟩ := floorset_terminal_in_die eps sy jp.2.2 h.eps_pos hy hp2 hb2
+  refine ⟨nrect true true (f4 (fsPinCoord eps sx jp.2.1, fsPinCoord eps sy jp.2.2, eps, eps)), ?_⟩
+  exact ⟨by simp [fsPinMod], by simp [nrect, f4, Num.val], by simp [nrect, f4, Num.val],
+    by simpa [nrect, f4, Num.val] using a1, by simpa [nrect, f4, Num.val] using a2,
+    by simpa [nrect, f4, Num.val] using b1, by simpa [nrect, f4, Num.val] using b2,
+    by simpa [nrect, f4, Num.val] using a3, by simpa [nrect, f4, Num.val] using b3⟩
+
+/-- **the converter from the RAW arrays** (`FloorSetInstance(data, density, terminals)` then `write_yaml_FPEF`): for raw
+    arrays the constructor's own checks admit (`FsRaw.WF`: no negative entry, density in [0, 1], at least one pin, a proper
+    decomposition of every block, connections between existing blocks / pins, a normalisation that does not divide by
+    zero) the constructor returns an instance whose blocks carry the kinds of the placement constraints
+    (`[1]` pre-placed → fixed, `[0]` fixed → hard, else soft), the document it writes is ACCEPTED by the reader, and the
+    loaded netlist has those modules and the nets `w · alpha` with `alpha = 1` (no density) or
+    `density / max_b (weight_sum b / perimeter b)`. -/
+theorem floorset_raw_accepted (stog : List (NRect α) → List (NRect α)) (εA eps : α) (sqrt : α → α) (r : FsRaw α)
+    (h : FsRaw.WF eps εA sqrt r) :
+    ∃ f sx sy, fsOfRaw sqrt r = .ok f ∧ f.blocks = fsBlocksOf r ∧ f.pins = r.pins ∧ f.b2b = r.b2b ∧ f.p2b = r.p2b ∧
+      ((r.density = none ∨ r.density = some 0) → f.alpha = 1) ∧
+      (∀ x, r.density = some x → x ≠ 0 → fsAlpha sqrt r x = .ok f.alpha) ∧
+      fsShape f = .ok (sx, sy) ∧
+      (∃ t d, convertRaw eps sqrt r = .ok (t, d) ∧ t = fpefTree eps sx sy f) ∧
+      parseNetlist stog εA (fpefTree eps sx sy f)
+        = .ok { modules := (fsModsRead eps sx sy f).map (post stog), nets := fsNetsRead f } := by
+  obtain ⟨f, h1, hwf, hb, hp, _, hbb, hpb, ha1, ha2⟩ := fsOfRaw_ok eps εA sqrt r h
+  obtain ⟨sx, sy, hs, hw, hacc⟩ := floorset_accepted stog εA eps f hwf
+  refine ⟨f, sx, sy, h1, hb, hp, hbb, hpb, ha1, ha2, hs,
+    ⟨fpefTree eps sx sy f, .map [(.str "width", .float sx), (.str "height", .float sy)], ?_, rfl⟩, hacc⟩
+  simp [convertRaw, h1, hw, writeDIEF, hs]
+
+/-- what the constructor refuses, in the order it raises: a negative entry in a checked array or a density outside
+    [0, 1] (`AssertionError`), then no pins (`ValueError`), then a zero perimeter / zero maximal weight density
+    (`ZeroDivisionError`). -/
+theorem floorset_raw_rejects (sqrt : α → α) (r : FsRaw α) :
+    (fsValidate r = false → fsOfRaw sqrt r = .error .assertion) ∧
+    (fsValidate r = true → ∀ x, r.density = some x → (x < 0 ∨ 1 < x) → fsOfRaw sqrt r = .error .assertion) ∧
+    (fsValidate r = true → (r.density = none ∨ ∃ x, r.density = some x ∧ 0 ≤ x ∧ x ≤ 1) → r.pins = [] →
+      fsOfRaw sqrt r = .error .valueError) := by
+  refine ⟨fun h => by simp [fsOfRaw, h], ?_, ?_⟩
+  · intro hv x hx hr
+    have hx0 : ¬ x = 0 := by rcases hr with h | h <;> intro e <;> rw [e] at h <;> norm_num at h
+    have hnot : ¬ (0 ≤ x ∧ x ≤ 1) := by
+      rintro ⟨a, b⟩
+      rcases hr with h | h
+      · exact absurd a (not_le.mpr h)
+      · exact absurd b (not_le.mpr h)
+    simp [fsOfRaw, hv, hx, fsDensity, nl_zero_eq, hx0, hnot, NL.one]
+  · intro hv hd hp
+    have hsh : ∀ a : α, fsShape (FsInst.mk (fsBlocksOf r) r.pins r.terminalsAsModules a r.b2b r.p2b)
+        = .error .valueError := fun a => fsShape_nopins _ hp
+    rcases hd with hd | ⟨x, hd, h0, h1⟩
+    · simp [fsOfRaw, hv, hd, fsDensity, hsh]
+    · by_cases hz : x = 0
+      · simp [fsOfRaw, hv, hd, fsDensity, nl_zero_eq, hz, hsh]
+      · simp [fsOfRaw, hv, hd, fsDensity, nl_zero_eq, hz, h0, h1, NL.one, hsh]
 
 /-- an instance without pins produces nothing: the converter raises `ValueError` (`max()` of an empty sequence). -/
 theorem floorset_no_pins (eps : α) (f : FsInst α) (h : f.pins = []) :
@@ -815,7 +1236,7 @@ example : (⟨.i 8, .f (13 / 2), [⟨.i 5, .i 5, .i 2, .i 1, "#"⟩], [⟨.f 1, 
     subst hr
     exact ⟨by norm_num [VRect.Geo, Num.val, intToSc], by decide, by decide⟩
 
-example : (⟨⟨.f (5 / 2), .i 4, .i 5, .i 4, "_"⟩, [("A", .f (1 / 10)), ("m_1", .i 0)], 2⟩ : Cell ℚ).WF := by
+example : (⟨⟨.f (5 / 2), .i 4, .i 5, .i 4, "_"⟩, [("A", .f (1 / 10)), ("m_1", .i 0)], 2, true⟩ : Cell ℚ).WF := by
   refine ⟨by norm_num [VRect.Geo, Num.val, intToSc], by decide, by decide, ?_⟩
   intro kv hkv
   simp only [List.mem_cons, List.mem_nil_iff, or_false] at hkv
@@ -864,6 +1285,36 @@ example : FsInst.WF (1 / 1000 : ℚ) 0
     simp only [List.mem_cons, List.mem_nil_iff, or_false] at he
     subst he; simp
 
+
+/-- raw FloorSet arrays meeting `FsRaw.WF` (hypothesis of `floorset_raw_accepted`): a soft 4 × 2 block and a pre-placed
+    2 × 2 block with their (padded) vertex rows, two pins, one b2b and one p2b connection, density 1/2; the perimeter
+    uses a stand-in `sqrt` (constant 1 per edge), so `alpha = (1/2) / max(5/6, 2/6) = 3/5`. -/
+example : FsRaw.WF (1 / 1000 : ℚ) 0 (fun _ => 1)
+    { areaBlocks := [8, 4], b2b := [(0, 1, 2)], p2b := [(1, 0, 3)], pins := [(0, 0), (10, 10)],
+      cons := [[0, 0, 0, 0, 0], [0, 1, 0, 0, 0]],
+      vertices := [[(1, 1), (5, 1), (5, 3), (1, 3), (-1, -1), (-1, -1), (-1, -1)],
+                   [(6, 6), (8, 6), (8, 8), (6, 8), (-1, -1), (-1, -1), (-1, -1)]],
+      metrics := [2, 2, 1, 1, 1, 1, 1, 1], density := some (1 / 2), terminalsAsModules := true,
+      decomp := [[(3, 2, 4, 2)], [(7, 7, 2, 2)]] } := by
+  refine ⟨by norm_num, by decide +kernel, ?_, by simp, ?_, ?_, ?_, ?_⟩
+  · intro x hx; cases hx; norm_num
+  · intro i hi
+    have : i = 0 ∨ i = 1 := by simp at hi; omega
+    rcases this with rfl | rfl
+    · refine ⟨by simp, ?_, ?_, ?_, ?_⟩
+      · intro q hq; simp at hq; subst hq; norm_num [Rect4Ok]
+      · intro _ _; norm_num
+      · intro h; exact absurd h (by decide +kernel)
+      · intro h; exact absurd h (by decide +kernel)
+    · refine ⟨by simp, ?_, ?_, ?_, ?_⟩
+      · intro q hq; simp at hq; subst hq; norm_num [Rect4Ok]
+      · intro _ h2; exact absurd (by decide +kernel) h2
+      · intro _; simp [noOverlap, pairsAll]
+      · intro h; exact absurd h (by decide +kernel)
+  · intro e he; simp at he; subst he; simp
+  · intro e he; simp at he; subst he; simp
+  · intro x hx _; cases hx
+    exact ⟨3 / 5, by decide +kernel⟩
 
 /-- a region list the die constructor's parser admits (blockage + tagged region), for `die_roundtrip_constructor`. -/
 example : ∀ r ∈ ([{ cx := 5, cy := 5, w := 2, h := 1, region := "#" }, { cx := 1, cy := 1, w := 2, h := 2, region := "dsp" }]
@@ -938,23 +1389,78 @@ example : ∃ (a : Alloc.Allocation ℚ) (st : Alloc.Eps ℚ), Alloc.ValidAlloc 
 
 
 /-- `alloc_roundtrip_constructor` APPLIED to C02's witness allocation (which has a fixed cell): the written document is
-    accepted by the full constructor and the fixed mark is the only thing that is gone. -/
-example : ∃ (a : Alloc.Allocation ℚ) (st : Alloc.Eps ℚ) (raw : List (Alloc.RawCell ℚ)) (a' : Alloc.Allocation ℚ),
+    accepted by the full (REPAIRED) constructor and the fixed mark comes back with the cell. -/
+example : ∃ (a : Alloc.Allocation ℚ) (st : Alloc.Eps ℚ) (raw : List (Alloc.RawCell ℚ × Bool)) (a' : Alloc.Allocation ℚ),
     rawOfTree (writeAlloc (a.cells.map ofACell)).1 = some raw ∧
-    Alloc.mkAllocation Alloc.exEnv st raw = .ok (a', st) ∧ a'.cells = a.cells.map stripCell ∧ a'.stats = a.stats ∧
-    (∃ c ∈ a.cells, c.rect.fixed = true) ∧ (∀ c ∈ a'.cells, c.rect.fixed = false) := by
+    mkAllocationDoc Alloc.exEnv st raw = .ok (a', st) ∧ a'.cells = a.cells.map stripCell ∧ a'.stats = a.stats ∧
+    (∃ c ∈ a.cells, c.rect.fixed = true) ∧
+    a'.cells.map (fun c => c.rect.fixed) = a.cells.map (fun c => c.rect.fixed) ∧ (∃ c ∈ a'.cells, c.rect.fixed = true) := by
   obtain ⟨a, st, h, hv⟩ := Alloc.exRawF_valid
   have hb : (match Alloc.mkAllocation Alloc.exEnv ⟨-1, -1⟩ Alloc.exRawF with
       | .ok (a, _) => a.cells.all (fun c => Alloc.validIdent c.rect.region) && a.cells.any (fun c => c.rect.fixed)
       | .error _ => false) = true := by decide +kernel
   rw [h] at hb
   simp only [Bool.and_eq_true, List.all_eq_true, List.any_eq_true] at hb
-  obtain ⟨raw, a', h1, h2, h3, _, h5, _⟩ := alloc_roundtrip_constructor Alloc.exEnv st a hv hb.1
-  refine ⟨a, st, raw, a', h1, h2, h3, h5, hb.2, ?_⟩
-  intro c hc
-  rw [h3] at hc
-  obtain ⟨c0, _, rfl⟩ := List.mem_map.mp hc
-  rfl
+  obtain ⟨raw, a', h1, h2, _, h3, _, h5, _⟩ := alloc_roundtrip_constructor Alloc.exEnv st a hv hb.1
+  obtain ⟨c, hc, hcf⟩ := hb.2
+  refine ⟨a, st, raw, a', h1, h2, h3, h5, hb.2, ?_, ⟨stripCell c, ?_, hcf⟩⟩
+  · rw [h3]; simp [List.map_map, Function.comp_def, stripCell]
+  · rw [h3]; exact List.mem_map.mpr ⟨c, hc, rfl⟩
+
+/-- `alloc_roundtrip_fresh` APPLIED: a 4 × 2 allocation of two abutting cells (one of them FIXED, refined once), written
+    in one tolerance state, is accepted back in a FRESH interpreter (tolerances undefined: `⟨-1, -1⟩`), where the
+    tolerance becomes `tiny · min(4, 2)` and the area tolerance its `sqrt` (here: any non-negative answer). -/
+example : ∃ (raw : List (Alloc.RawCell ℚ × Bool)) (a' : Alloc.Allocation ℚ),
+    rawOfTree (writeAlloc ((([⟨{ cx := 1, cy := 1, w := 2, h := 2, fixed := true }, [("F", 1)], 1⟩,
+      ⟨{ cx := 3, cy := 1, w := 2, h := 2 }, [("S", 1 / 2)], 0⟩] : List (Alloc.Cell ℚ))).map ofACell)).1 = some raw ∧
+    mkAllocationDoc ⟨1 / 1000000000000, 1 / 100, fun _ => 1 / 1000000⟩ ⟨-1, -1⟩ raw
+      = .ok (a', ⟨2 / 1000000000000, 1 / 1000000⟩) ∧
+    a'.cells.map (fun c => c.rect.fixed) = [true, false] := by
+  let cs : List (Alloc.Cell ℚ) := [⟨{ cx := 1, cy := 1, w := 2, h := 2, fixed := true }, [("F", 1)], 1⟩,
+      ⟨{ cx := 3, cy := 1, w := 2, h := 2 }, [("S", 1 / 2)], 0⟩]
+  let env : Alloc.Env ℚ := ⟨1 / 1000000000000, 1 / 100, fun _ => 1 / 1000000⟩
+  have hc : Alloc.CellsOK (1 / 10 : ℚ) cs := by
+    refine ⟨by simp [cs], ?_, ?_, ?_, ?_⟩
+    · intro c hc
+      simp only [cs, List.mem_cons, List.mem_nil_iff, or_false] at hc
+      rcases hc with rfl | rfl <;> norm_num [Alloc.CellGood, Rect.xmin, Rect.ymin, Rect.two]
+    · intro c hc
+      simp only [cs, List.mem_cons, List.mem_nil_iff, or_false] at hc
+      rcases hc with rfl | rfl <;> decide +kernel
+    · simp only [cs, List.pairwise_cons, List.mem_cons, List.mem_nil_iff, or_false, forall_eq, List.Pairwise.nil,
+        and_true, not_false_eq_true, implies_true]
+      norm_num [Rect.areaOverlap, Rect.xmin, Rect.xmax, Rect.ymin, Rect.ymax, Rect.two, Rect.zero, pyMax, pyMin]
+    · intro m hm
+      have hm' : m = "F" ∨ m = "S" := by
+        have : Alloc.modules cs = ["F", "S"] := by decide +kernel
+        rw [this] at hm; simpa using hm
+      have e1 : ("F" == "S") = false := by decide
+      have e2 : ("S" == "F") = false := by decide
+      rcases hm' with rfl | rfl <;>
+        norm_num [Alloc.areaSum, Alloc.occ, cs, List.lookup, Rect.area, e1, e2]
+  obtain ⟨a, h1, h2, hv⟩ := Alloc.mkAllocation_obj_ok env ⟨1 / 100, 1 / 10⟩ cs (by norm_num) (by norm_num) hc
+  have hbb : a.bbox = { cx := 2, cy := 1, w := 4, h := 2 } := by
+    have := hv.bbox; rw [h2] at this
+    have e : Alloc.boundingBox cs = .ok ({ cx := 2, cy := 1, w := 4, h := 2 } : Rect ℚ) := by
+      simp only [Alloc.boundingBox, cs, List.foldl_cons, List.foldl_nil, Rect.xmin, Rect.xmax, Rect.ymin, Rect.ymax,
+        Rect.two, Rect.zero, pyMin, pyMax]
+      norm_num
+    rw [e] at this; exact (Except.ok.inj this).symm
+  have heff : effEps env ⟨-1, -1⟩ a.bbox = ⟨2 / 1000000000000, 1 / 1000000⟩ := by
+    rw [hbb]; simp [effEps, Alloc.Eps.defined, Rect.zero, env, pyMin]; norm_num
+  obtain ⟨raw, a', r1, r2, r3, _⟩ := alloc_roundtrip_fresh env ⟨1 / 100, 1 / 10⟩ ⟨-1, -1⟩ a hv
+    (by rw [h2]; intro c hc
+        simp only [cs, List.mem_cons, List.mem_nil_iff, or_false] at hc
+        rcases hc with rfl | rfl <;> decide)
+    (by rw [h2]
+        simp only [cs, List.pairwise_cons, List.mem_cons, List.mem_nil_iff, or_false, forall_eq, List.Pairwise.nil,
+          and_true, not_false_eq_true, implies_true]
+        norm_num [Rect.areaOverlap, Rect.xmin, Rect.xmax, Rect.ymin, Rect.ymax, Rect.two, Rect.zero, pyMax, pyMin])
+    (by rw [heff]; norm_num)
+  rw [h2] at r1
+  rw [heff] at r2
+  refine ⟨raw, a', r1, r2, ?_⟩
+  rw [r3, h2]; rfl
 
 /-- `rectio_same_modules_as_allocation` APPLIED to the same allocation: whatever `get_netlist` stores for `M1` is the
     allocation's cached area and centre of `M1`. -/
@@ -968,6 +1474,28 @@ example : ∃ (a : Alloc.Allocation ℚ) (st : Alloc.Eps ℚ), Alloc.ValidAlloc 
   cases hl : rioLook (rioMap (a.cells.map ofACell)) "M1" with
   | none => rw [hl] at this; exact this.2
   | some v => obtain ⟨c, ar⟩ := v; rw [hl] at this; exact ⟨this.2.1, this.2.2⟩
+
+/-- `rectio_accepted_of_valid_allocation` APPLIED to C02's witness allocation: `get_netlist`'s netlist is accepted and
+    every module it holds carries the allocation's cached area and centre. -/
+example : ∃ (a : Alloc.Allocation ℚ) (st : Alloc.Eps ℚ), Alloc.ValidAlloc st a ∧
+    (∃ nl, parseNetlist (fun rs => rs) (0 : ℚ) (rioTree (a.cells.map ofACell)) = .ok nl ∧ nl.nets = [] ∧
+      nl.modules.map (·.name) = (rioMap (a.cells.map ofACell)).map (·.1)) ∧
+    ∀ e ∈ rioMap (a.cells.map ofACell), a.areaOf e.1 = some e.2.2 ∧ a.centerOf e.1 = some e.2.1 := by
+  obtain ⟨a, st, _, hv⟩ := Alloc.exRawF_valid
+  obtain ⟨h1, h2, _⟩ := rectio_accepted_of_valid_allocation (fun rs => rs) (0 : ℚ) st a hv
+  exact ⟨a, st, hv, ⟨_, h1, rfl, by simp [softModC, Function.comp_def]⟩, fun e he => (h2 e he).2⟩
+
+/-- `netgen_main_accepted` / `netgen_main_rejects` APPLIED: `netgen --type ring --size 5` writes the 5-cycle;
+    `netgen --type ring --size 5 6` and `netgen --type chain --size 4 --add-centers` are refused. -/
+example : (∃ g, netgenMain ({ type := "ring", size := [5], addCenters := false, sd := 0, die := none, noise := [] } : NgOpts ℚ)
+      = .ok g ∧ parseNetlist (fun rs => rs) (0 : ℚ) g.toY = .ok (pairNetlist 1 5 (ringPairs 5))) ∧
+    netgenMain ({ type := "ring", size := [5, 6], addCenters := false, sd := 0, die := none, noise := [] } : NgOpts ℚ)
+      = .error .assertion ∧
+    netgenMain ({ type := "chain", size := [4], addCenters := true, sd := 0, die := some (4, 4), noise := [] } : NgOpts ℚ)
+      = .error .assertion :=
+  ⟨(netgen_main_accepted (fun rs => rs) (0 : ℚ) _ 5 rfl rfl).2.1 rfl,
+   (netgen_main_rejects _).1 (Or.inr ⟨by decide, by decide⟩),
+   (netgen_main_rejects _).2.1 rfl (by decide)⟩
 
 /-- `die_roundtrip_constructor` APPLIED: an 8 × 6 die with a blockage and a `dsp` region. -/
 example : ∃ inp', Die.parseDie (toYV (writeDie (dieObjOfIn
@@ -986,6 +1514,42 @@ example : ∃ inp', Die.parseDie (toYV (writeDie (dieObjOfIn
   refine ⟨inp', h1, h2, h3, ?_, ?_⟩
   · rw [h4]; decide
   · rw [h5]; decide
+
+/-- `die_roundtrip_any_state` APPLIED: the 8 × 6 die with a `dsp` region and a blockage, built in a FRESH interpreter
+    (`st = none`: tolerance `6e-11` from the die itself) and its written document re-read where an earlier design left
+    the tolerance `1e-9` — both inside the band `εmax = 1/100` below the smallest coordinate gap (1): same object. -/
+example : ∃ out,
+    Die.dieModel (fun _ => (1 : ℚ) / 1000) none
+      (.map [("width", .num 8), ("height", .num 6),
+        ("regions", .list [.list [.num 1, .num 1, .num 2, .num 2, .str "dsp"], .list [.num 5, .num 5, .num 2, .num 1, .str "#"]])])
+      [] none = .ok (out, (Die.mkEps (fun _ => (1 : ℚ) / 1000) none 8 6).1, (Die.mkEps (fun _ => (1 : ℚ) / 1000) none 8 6).2) ∧
+    Die.dieModel (fun _ => (1 : ℚ) / 1000) (some (1 / 1000000000, 1 / 1000))
+      (toYV (writeDie (dieObjOfIn ({ W := 8, H := 6, regions := [{ cx := 1, cy := 1, w := 2, h := 2, region := "dsp" },
+                                      { cx := 5, cy := 5, w := 2, h := 1, region := "#" }] } : Die.DieIn ℚ))).1) [] none
+      = .ok (out, (Die.mkEps (fun _ => (1 : ℚ) / 1000) (some (1 / 1000000000, 1 / 1000)) 8 6).1,
+                  (Die.mkEps (fun _ => (1 : ℚ) / 1000) (some (1 / 1000000000, 1 / 1000)) 8 6).2) ∧
+    FV.C01.ExactTiling out := by
+  have hp : Die.parseDie (.map [("width", .num (8 : ℚ)), ("height", .num 6),
+        ("regions", .list [.list [.num 1, .num 1, .num 2, .num 2, .str "dsp"], .list [.num 5, .num 5, .num 2, .num 1, .str "#"]])])
+      = .ok ({ W := 8, H := 6, regions := [{ cx := 1, cy := 1, w := 2, h := 2, region := "dsp" },
+                                      { cx := 5, cy := 5, w := 2, h := 1, region := "#" }] } : Die.DieIn ℚ) := by
+    with_unfolding_all rfl
+  exact die_roundtrip_any_state (fun _ => (1 : ℚ) / 1000) none (some (1 / 1000000000, 1 / 1000)) _ [] _ hp
+    (by
+      intro r hr
+      simp only [List.mem_cons, List.mem_nil_iff, or_false] at hr
+      rcases hr with rfl | rfl
+      · exact ⟨by norm_num, by norm_num, by norm_num, by norm_num, Or.inl (by decide), by decide, rfl, rfl, rfl⟩
+      · exact ⟨by norm_num, by norm_num, by norm_num, by norm_num, Or.inr rfl, by decide, rfl, rfl, rfl⟩)
+    (1 / 100)
+    (by
+      constructor
+      · decide +kernel
+      · decide +kernel
+      · decide +kernel
+      · unfold Die.Sep; decide +kernel
+      · unfold Die.Sep; decide +kernel)
+    (by decide +kernel) (by decide +kernel) (by decide +kernel) (by decide +kernel) (by decide +kernel) (by decide +kernel)
 
 /-- `gen_grid_centres_position` on the auditor's example: grid 1 × 2 on an 8 × 2 die puts `M0_1` at (6, 1), inside the die
     (the swapped formula would give (2, 3)). -/
